@@ -65,6 +65,7 @@ type job struct {
 	cfg     qmodel.Config
 	focus   string // "" = full alphabet; "dlq" = small alphabet centred on dead-lettering and DLQ retention
 	scaled  bool   // memory: order-list compaction thresholds lowered (qcheck.Spec.ScaleCompaction)
+	prefix  int    // > 0: start from qcheck.RichPrefixes(alpha())[prefix-1] instead of the empty queue
 }
 
 // dlqAlpha: two messages with equal received_at (batch), dead-lettered singly or as a batch, DLQ listing / requeue /
@@ -86,14 +87,22 @@ func TestCheck(t *testing.T) {
 	r := runner.Start("C02", "model_checking")
 	var jobs []job
 	for _, cfg := range configs(r) {
-		jobs = append(jobs, job{"memory", runner.Pick(r, 5, 6), cfg, "", false}, job{"sqlite", runner.Pick(r, 4, 5), cfg, "", false})
+		jobs = append(jobs, job{"memory", runner.Pick(r, 5, 6), cfg, "", false, 0}, job{"sqlite", runner.Pick(r, 4, 5), cfg, "", false, 0})
+	}
+	// non-initial start states (parked, settled, delayed and expired-lease populations), both backends
+	for pi := range qcheck.RichPrefixes(alpha()) {
+		jobs = append(jobs, job{"memory", runner.Pick(r, 4, 5), qmodel.Config{}, "", true, pi + 1}, job{"sqlite", runner.Pick(r, 3, 4), qmodel.Config{}, "", false, pi + 1})
+		if r.Thorough() {
+			c := qmodel.Config{DeliveredMaxAge: 10 * sec, DLQMaxAge: 10 * sec, PruneInterval: sec}
+			jobs = append(jobs, job{"memory", 4, c, "", true, pi + 1}, job{"sqlite", 3, c, "", false, pi + 1})
+		}
 	}
 	// the same memory searches with the order-list compaction brought into reach
 	for _, cfg := range configs(r) {
-		jobs = append(jobs, job{"memory", runner.Pick(r, 5, 6), cfg, "", true})
+		jobs = append(jobs, job{"memory", runner.Pick(r, 5, 6), cfg, "", true, 0})
 	}
 	for _, cfg := range []qmodel.Config{{DLQMaxDepth: 1, PruneInterval: sec}, {DLQMaxDepth: 2, DLQMaxAge: 10 * sec, PruneInterval: sec}} {
-		jobs = append(jobs, job{"memory", runner.Pick(r, 6, 7), cfg, "dlq", false}, job{"sqlite", runner.Pick(r, 5, 6), cfg, "dlq", false})
+		jobs = append(jobs, job{"memory", runner.Pick(r, 6, 7), cfg, "dlq", false, 0}, job{"sqlite", runner.Pick(r, 5, 6), cfg, "dlq", false, 0})
 	}
 	if runner.ReplayPath() != "" {
 		if !qcheck.HandleReplay(r, []qcheck.Spec{{Name: "c02", Alpha: alpha()}, {Name: "c02-dlq", Alpha: dlqAlpha()}}, nil) {
@@ -110,7 +119,11 @@ func TestCheck(t *testing.T) {
 		if j.focus == "dlq" {
 			al, name = dlqAlpha(), "c02-dlq"
 		}
-		spec := qcheck.Spec{Name: name, Backend: j.backend, Cfg: j.cfg, Alpha: al, Depth: j.depth, Workers: 4, ScaleCompaction: j.scaled,
+		var pre qcheck.Prefix
+		if j.prefix > 0 {
+			pre = qcheck.RichPrefixes(alpha())[j.prefix-1]
+		}
+		spec := qcheck.Spec{Name: name, Backend: j.backend, Prefix: pre.Ops, PrefixName: pre.Name, Cfg: j.cfg, Alpha: al, Depth: j.depth, Workers: 4, ScaleCompaction: j.scaled,
 			MaxTrans: runner.Pick(r, int64(3_000_000), int64(40_000_000)), Deadline: time.Now().Add(budget)}
 		res := qcheck.Run(spec)
 		for e := range res.Edges {
